@@ -365,6 +365,38 @@ def lef_enums(repo):
         raise Unrec("no enumstr! tables found")
     return tables
 
+
+def num_consts(repo):
+    """Small numeric tables of the LEF paths, read from the source:
+       * the legal DATABASE MICRONS values (`LefDbuPerMicron::try_new`, lef21/src/data.rs),
+       * raw units -> LEF database units (`LefExporter::export_units`, layout21raw/src/lef.rs),
+       * raw units per micron fixed by the LEF importer (`dist_scale`, layout21raw/src/lef.rs)."""
+    def num(t):
+        t = t.replace("_", "").strip()
+        if not re.fullmatch(r"-?\d+", t):
+            raise Unrec("not an integer literal: " + t[:30])
+        return int(t)
+    src = strip_comments(open(os.path.join(repo, "lef21/src/data.rs")).read())
+    body = find_block(src, r"pub\s+fn\s+try_new\s*\(\s*x\s*:\s*LefDecimal\s*\)")
+    m = re.search(r"!\s*\[([^\]]*)\]\s*\.\s*contains\s*\(\s*&\s*x\s*\.\s*mantissa\s*\(\s*\)\s*\)", body or "")
+    if not m:
+        raise Unrec("LefDbuPerMicron::try_new: legal-value list not found")
+    legal = [num(t) for t in m.group(1).split(",") if t.strip()]
+    src = strip_comments(open(os.path.join(repo, "layout21raw/src/lef.rs")).read())
+    body = find_block(src, r"fn\s+export_units\s*\(")
+    m = re.search(r"let\s+scale\s*=\s*match\s+units\s*\{(.*?)\}\s*;", body or "", re.S)
+    if not m:
+        raise Unrec("LefExporter::export_units: scale table not found")
+    arms = re.findall(r"Units::(\w+)\s*=>\s*([\d_]+)\s*,?", m.group(1))
+    leftover = re.sub(r"Units::(\w+)\s*=>\s*([\d_]+)\s*,?", "", m.group(1)).strip()
+    if leftover or not arms:
+        raise Unrec("LefExporter::export_units: unrecognised arm: " + leftover[:60])
+    scales = [(a, num(b)) for a, b in arms]
+    ds = re.findall(r"self\s*\.\s*dist_scale\s*=\s*([\d_]+)\s*;", src)
+    if len(ds) != 1:
+        raise Unrec("LefImporter: expected exactly one assignment to dist_scale, found %d" % len(ds))
+    return legal, scales, num(ds[0])
+
 C20_FILES = ["layout21raw/src/gds.rs", "layout21raw/src/proto.rs", "layout21raw/src/lef.rs",
              "layout21raw/src/data.rs", "layout21tetris/src/conv/raw.rs"]
 
@@ -457,6 +489,24 @@ def main():
         report["constructs"]["hash_iter_sites"] = "extracted (%d sites)" % len(sites)
     except Exception as e:
         report["fallback"].append("hash sites: translator error: %r" % (e,))
+    try:
+        legal, scales, dist = num_consts(repo)
+        text = ("-- GENERATED by /verif/tools/translate.py: numeric tables of the LEF paths — do not edit.\n"
+                "namespace L21.Gen\n\n/-- `LefDbuPerMicron::try_new`: the legal DATABASE MICRONS values -/\n"
+                "def legalDbuSrc : List Int := [" + ", ".join(str(x) for x in legal) + "]\n\n"
+                "/-- `LefExporter::export_units`: raw units -> LEF database units per micron -/\n"
+                "def lefExportScaleSrc : List (String × Int) := [" + ", ".join('("%s", %d)' % x for x in scales) + "]\n\n"
+                "/-- `LefImporter`: raw units per micron (`dist_scale`) -/\n"
+                "def lefImportDistScaleSrc : Int := %d\n\nend L21.Gen\n" % dist)
+        path = os.path.join(outdir, "NumConsts.lean")
+        old = open(path).read() if os.path.exists(path) else None
+        if old != text:
+            open(path, "w").write(text)
+        report["constructs"]["num_consts"] = "extracted (%d legal dbu values, %d unit scales, dist_scale)" % (len(legal), len(scales))
+    except Unrec as e:
+        report["fallback"].append("numeric tables: unrecognised: " + str(e))
+    except Exception as e:
+        report["fallback"].append("numeric tables: translator error: %r" % (e,))
     print(json.dumps(report))
     return 0
 
